@@ -88,6 +88,13 @@ func shapes() []*shape {
 			world.Item{Kind: "claim", Claim: "add", PN: 2, Attr: "camliMember", ValRef: 3, Date: 10, Signer: 1},
 			world.Item{Kind: "claim", Claim: "set", PN: 3, Attr: "title", Val: 1, Date: 5, Signer: 1},
 			world.Item{Kind: "delete", Target: 4, Date: 20, Signer: 1}),
+		mk("late-delete", []string{"one", "two"},
+			world.Item{Kind: "key", Signer: 1},
+			world.Item{Kind: "permanode", Signer: 1, Data: "p"},
+			world.Item{Kind: "claim", Claim: "set", PN: 2, Attr: "title", Val: 1, Date: 10, Signer: 1},
+			world.Item{Kind: "delete", Target: 2, Date: 15, Signer: 1},
+			world.Item{Kind: "claim", Claim: "set", PN: 2, Attr: "title", Val: 2, Date: 20, Signer: 1},
+			world.Item{Kind: "claim", Claim: "add", PN: 2, Attr: "tag", Val: 1, Date: 12, Signer: 1}),
 		mk("delpn-attrs", []string{"a", "b"},
 			world.Item{Kind: "key", Signer: 1},
 			world.Item{Kind: "permanode", Signer: 1, Data: "p"},
@@ -506,7 +513,7 @@ func battery(e *idx.Env, b *world.Built) map[string]string {
 		}
 		return strings.Join(ss, ";")
 	}
-	times := []time.Time{{}, world.Epoch.Add(11 * time.Second), world.Epoch.Add(25 * time.Second)}
+	times := []time.Time{{}, world.Epoch.Add(11 * time.Second), world.Epoch.Add(17 * time.Second), world.Epoch.Add(25 * time.Second)}
 	c := e.Corpus
 	for i := range b.W.Items {
 		it := &b.W.Items[i]
